@@ -2,6 +2,7 @@ package main
 
 import (
 	"fmt"
+	"strings"
 	"go/token"
 	"go/types"
 	"sort"
@@ -475,6 +476,80 @@ type famWrite struct {
 	whole bool
 	bases []ssa.Value
 	sort  string
+	deps  map[string]bool // families read to compute derived bases (must not be written in the loop)
+	nonFresh bool         // some write in the loop may hit an object that existed before the loop
+}
+
+// freshInLoop: v denotes (part of) an object allocated inside the loop in the same iteration.
+func freshInLoop(v ssa.Value, inLoop func(ssa.Value) bool, depth int) bool {
+	if v == nil || !inLoop(v) || depth > 6 {
+		return false
+	}
+	switch x := v.(type) {
+	case *ssa.Alloc, *ssa.MakeMap, *ssa.MakeSlice:
+		return true
+	case *ssa.Call:
+		if b, ok := x.Call.Value.(*ssa.Builtin); ok && b.Name() == "append" {
+			return true
+		}
+	case *ssa.Slice:
+		return freshInLoop(x.X, inLoop, depth+1)
+	case *ssa.IndexAddr:
+		return freshInLoop(x.X, inLoop, depth+1)
+	case *ssa.FieldAddr:
+		return freshInLoop(x.X, inLoop, depth+1)
+	}
+	return false
+}
+
+// stableBase: v is defined outside the loop, or is a chain of loads through
+// fields of such a value (`*(&x.f)`); deps collects the field families read.
+func stableBase(v ssa.Value, inLoop func(ssa.Value) bool, deps map[string]bool, depth int) bool {
+	if !inLoop(v) {
+		return true
+	}
+	if depth > 4 {
+		return false
+	}
+	un, ok := v.(*ssa.UnOp)
+	if !ok || un.Op != token.MUL {
+		return false
+	}
+	fa, ok := un.X.(*ssa.FieldAddr)
+	if !ok {
+		return false
+	}
+	st := derefType(fa.X.Type())
+	if st == nil {
+		return false
+	}
+	ft := st.Underlying().(*types.Struct).Field(fa.Field).Type()
+	if scalarSort(ft) == "" {
+		return false
+	}
+	if !stableBase(fa.X, inLoop, deps, depth+1) {
+		return false
+	}
+	deps[fieldFam(st, fa.Field)] = true
+	return true
+}
+
+// evalStable evaluates a stable base in the loop-entry state.
+func (u *Unit) evalStable(st *State, v ssa.Value) Value {
+	if r, ok := st.Env[v]; ok {
+		return r
+	}
+	switch x := v.(type) {
+	case *ssa.Const, *ssa.Global, *ssa.Function:
+		return u.val(st, v)
+	case *ssa.UnOp:
+		if fa, ok := x.X.(*ssa.FieldAddr); ok {
+			base := u.evalStable(st, fa.X)
+			addr := u.fieldAddr(base, derefType(fa.X.Type()), fa.Field)
+			return u.loadAt(st.View(), addr, x.Type())
+		}
+	}
+	return u.val(st, v)
 }
 
 type writeSet struct {
@@ -491,9 +566,27 @@ func (ws *writeSet) add(fam, sortv string, base ssa.Value, inLoop func(ssa.Value
 		fw = &famWrite{sort: sortv}
 		ws.fams[fam] = fw
 	}
-	if base == nil || inLoop(base) {
+	if base != nil && freshInLoop(base, inLoop, 0) {
+		fw.whole = true // the family is havocked, but only for objects younger than the loop entry (see runLoopCut)
+		return
+	}
+	fw.nonFresh = true
+	if base == nil {
 		fw.whole = true
 		return
+	}
+	if inLoop(base) {
+		deps := map[string]bool{}
+		if !stableBase(base, inLoop, deps, 0) {
+			fw.whole = true
+			return
+		}
+		if fw.deps == nil {
+			fw.deps = map[string]bool{}
+		}
+		for d := range deps {
+			fw.deps[d] = true
+		}
 	}
 	for _, b := range fw.bases {
 		if b == base {
@@ -522,6 +615,26 @@ func (u *Unit) addStructWrite(ws *writeSet, t types.Type, depth int) {
 		}
 		u.addTypeWrite(ws, fieldFam(t, i), ft, nil, func(ssa.Value) bool { return true })
 	}
+}
+
+// addStructWriteBase: like addStructWrite but remembers whether the written object is fresh in the loop.
+func (u *Unit) addStructWriteBase(ws *writeSet, t types.Type, depth int, base ssa.Value, inLoop func(ssa.Value) bool) {
+	if base != nil && freshInLoop(base, inLoop, 0) {
+		s, ok := t.Underlying().(*types.Struct)
+		if !ok || depth > 5 {
+			return
+		}
+		for i := 0; i < s.NumFields(); i++ {
+			ft := s.Field(i).Type()
+			if isStructType(ft) {
+				u.addStructWriteBase(ws, ft, depth+1, base, inLoop)
+				continue
+			}
+			u.addTypeWrite(ws, fieldFam(t, i), ft, base, inLoop)
+		}
+		return
+	}
+	u.addStructWrite(ws, t, depth)
 }
 
 func (u *Unit) addMapWrite(ws *writeSet, mt types.Type, base ssa.Value, inLoop func(ssa.Value) bool, valsToo bool) {
@@ -560,7 +673,7 @@ func (u *Unit) scanWrites(fr *frame, blocks map[*ssa.BasicBlock]bool, ws *writeS
 				case *ssa.FieldAddr:
 					st := derefType(a.X.Type())
 					if isStructType(elem) {
-						u.addStructWrite(ws, elem, 0)
+						u.addStructWriteBase(ws, elem, 0, a.X, inLoop)
 					} else {
 						u.addTypeWrite(ws, fieldFam(st, a.Field), elem, a.X, inLoop)
 					}
@@ -574,11 +687,13 @@ func (u *Unit) scanWrites(fr *frame, blocks map[*ssa.BasicBlock]bool, ws *writeS
 					}
 				default:
 					if isStructType(elem) {
-						u.addStructWrite(ws, elem, 0)
+						u.addStructWriteBase(ws, elem, 0, x.Addr, inLoop)
 					} else {
 						var base ssa.Value
 						if al, ok := a.(*ssa.Alloc); ok {
 							base = al
+						} else if freshInLoop(x.Addr, inLoop, 0) {
+							base = x.Addr
 						}
 						u.addTypeWrite(ws, cellFam(elem), elem, base, inLoop)
 					}
@@ -592,16 +707,16 @@ func (u *Unit) scanWrites(fr *frame, blocks map[*ssa.BasicBlock]bool, ws *writeS
 					elem := derefType(y.Type())
 					if isStructType(elem) {
 						if countFlatFields(elem, 0) <= 80 {
-							u.addStructWrite(ws, elem, 0)
+							u.addStructWriteBase(ws, elem, 0, y, inLoop)
 						}
 					} else if comps(elem) != nil {
-						u.addTypeWrite(ws, cellFam(elem), elem, nil, inLoop)
+						u.addTypeWrite(ws, cellFam(elem), elem, y, inLoop)
 					}
 				case *ssa.MakeMap:
-					u.addMapWrite(ws, y.Type(), nil, inLoop, false)
+					u.addMapWrite(ws, y.Type(), y, inLoop, false)
 				case *ssa.MakeSlice:
 					if sl, ok := y.Type().Underlying().(*types.Slice); ok && scalarSort(sl.Elem()) != "" {
-						u.addTypeWrite(ws, cellFam(sl.Elem()), sl.Elem(), nil, inLoop)
+						u.addTypeWrite(ws, cellFam(sl.Elem()), sl.Elem(), y, inLoop)
 					}
 				}
 			case *ssa.Next:
@@ -622,6 +737,15 @@ func (u *Unit) scanWrites(fr *frame, blocks map[*ssa.BasicBlock]bool, ws *writeS
 }
 
 func (u *Unit) runLoopCut(fr *frame, L *Loop, spec *LoopSpec, entries []edgeState) []edgeState {
+	savedVisited := u.curVisited
+	for _, ins := range L.Header.Instrs {
+		if nx, ok := ins.(*ssa.Next); ok {
+			if r, ok := nx.Iter.(*ssa.Range); ok {
+				u.curVisited = fmt.Sprintf("visited:%s@%d", r.Name(), len(u.inlineStack))
+			}
+		}
+	}
+	defer func() { u.curVisited = savedVisited }()
 	// 1. merged entry state with phi values from the entry edges
 	entrySt := u.mergeIncoming(&frame{fn: fr.fn, c: fr.c, loops: fr.loops, params: fr.params, phiOverride: nil}, L.Header, cloneEdges(entries))
 	// obligation: invariants hold on entry
@@ -641,16 +765,29 @@ func (u *Unit) runLoopCut(fr *frame, L *Loop, spec *LoopSpec, entries []edgeStat
 	} else {
 		for _, fam := range sortedKeys(ws.fams) {
 			fw := ws.fams[fam]
+			for d := range fw.deps {
+				if _, written := ws.fams[d]; written {
+					fw.whole = true
+				}
+			}
+		}
+		for _, fam := range sortedKeys(ws.fams) {
+			fw := ws.fams[fam]
 			old := u.heapGet(entrySt, fam, fw.sort)
 			if fw.whole {
-				head.Heap[fam] = u.ctx.Fresh("H", fw.sort)
+				nh := u.ctx.Fresh("H", fw.sort)
+				head.Heap[fam] = nh
 				u.famSort[fam] = fw.sort
 				u.written[fam] = true
+				if !fw.nonFresh && strings.HasPrefix(fw.sort, "(Array Int") {
+					// every write in the loop goes to an object allocated in the same iteration: older objects keep their contents
+					u.assume(head, Term{fmt.Sprintf("(forall ((p Int)) (! (=> (< (objof p) %s) (= (select %s p) (select %s p))) :pattern ((select %s p))))", entrySt.allocTerm().S, nh.S, old.S, nh.S), SBool}, "loop-fresh-frame")
+				}
 				continue
 			}
 			cur := old
 			for _, b := range fw.bases {
-				ref := u.asSc(u.val(entrySt, b), nil).T
+				ref := u.asSc(u.evalStable(entrySt, b), nil).T
 				cur = Store(cur, ref, u.ctx.Fresh("hv", arrVal(fw.sort)))
 			}
 			u.heapSet(head, fam, cur)
@@ -664,15 +801,7 @@ func (u *Unit) runLoopCut(fr *frame, L *Loop, spec *LoopSpec, entries []edgeStat
 			head.Ghost[k] = u.ctx.Fresh("gh", head.Ghost[k].Sort)
 		}
 	}
-	savedVisited := u.curVisited
-	for _, ins := range L.Header.Instrs {
-		if nx, ok := ins.(*ssa.Next); ok {
-			if r, ok := nx.Iter.(*ssa.Range); ok {
-				u.curVisited = fmt.Sprintf("visited:%s@%d", r.Name(), len(u.inlineStack))
-			}
-		}
-	}
-	defer func() { u.curVisited = savedVisited }()
+
 	// phis get fresh values
 	override := map[*ssa.Phi]Value{}
 	for _, ins := range L.Header.Instrs {
@@ -681,6 +810,7 @@ func (u *Unit) runLoopCut(fr *frame, L *Loop, spec *LoopSpec, entries []edgeStat
 			break
 		}
 		override[p] = u.freshValue(p.Type(), "loop_"+p.Comment)
+		u.assumeResultOld(head, override[p])
 		head.Env[p] = override[p]
 		if p.Comment != "" {
 			head.Names[p.Comment] = nameRef{V: override[p]}
